@@ -614,6 +614,71 @@ func main() {
 		emit("(* processSubscribe registers the subscription BEFORE it reads the retained messages *)")
 		emit("Definition subscribe_registers_before_retained : bool := %v.", callPos(psub, "topicsMgr.Subscribe") < callPos(psub, "topicsMgr.Retained"))
 	}
+	// ring buffer: every store of a cursor is followed, unconditionally and in the same block, by the broadcast on
+	// the condition variable the other side waits on (cseq -> pcond, pseq -> ccond); and WriteTo hands a block to the
+	// writer BEFORE it commits it (the block is a view into the ring)
+	{
+		af := svc.files["buffer.go"]
+		okAll, stores := true, 0
+		ast.Inspect(af, func(n ast.Node) bool {
+			blk, ok := n.(*ast.BlockStmt)
+			if !ok {
+				return true
+			}
+			for i, st := range blk.List {
+				es, ok := st.(*ast.ExprStmt)
+				if !ok {
+					continue
+				}
+				call := src(es.X)
+				want := ""
+				switch {
+				case strings.HasPrefix(call, "bf.cseq.set("):
+					want = "bf.pcond.Broadcast()"
+				case strings.HasPrefix(call, "bf.pseq.set("):
+					want = "bf.ccond.Broadcast()"
+				default:
+					continue
+				}
+				stores++
+				found := false
+				for _, later := range blk.List[i+1:] {
+					if _, isRet := later.(*ast.ReturnStmt); isRet {
+						break
+					}
+					if les, ok := later.(*ast.ExprStmt); ok && src(les.X) == want {
+						found = true
+						break
+					}
+				}
+				if !found {
+					okAll = false
+				}
+			}
+			return true
+		})
+		emit("(* buffer.go: each of the %d cursor stores is followed unconditionally by the other side's broadcast *)", stores)
+		emit("Definition cursor_stores_broadcast : bool := %v.", okAll && stores > 0)
+		wt := svc.fn("buffer.go", "buffer", "WriteTo")
+		wpos, cpos := token.NoPos, token.NoPos
+		ast.Inspect(wt.Body, func(n ast.Node) bool {
+			if ce, ok := n.(*ast.CallExpr); ok {
+				switch src(ce.Fun) {
+				case "w.Write":
+					if wpos == token.NoPos {
+						wpos = ce.Pos()
+					}
+				case "bf.ReadCommit":
+					if cpos == token.NoPos {
+						cpos = ce.Pos()
+					}
+				}
+			}
+			return true
+		})
+		emit("(* buffer.WriteTo: the peeked block is written out before it is committed *)")
+		emit("Definition writeto_writes_before_commit : bool := %v.", wpos != token.NoPos && cpos != token.NoPos && wpos < cpos)
+	}
 	// processAcked switch on ackmsg.State
 	{
 		fd := svc.fn("process.go", "service", "processAcked")
